@@ -464,8 +464,14 @@ def density_runs(ctx):
             r, eps, limit, _ = rand_params(rng, n)
             import numpy as _np
             mm = rng.choice([m, m, _np.int64(m), _np.int32(m), _np.arange(2, 13)[m - 2]])      # the density as a Python or a numpy integer
-            run = SolverRun(prob, r=r, eps=eps, limit=min(limit, 40), m=mm, tag=prob.name, full_snap=False)
-            run.solve()
+            if len(runs) % 2 == 0:
+                run = SolverRun(prob, r=r, eps=eps, limit=min(limit, 40), m=mm, tag=prob.name, full_snap=False)
+                run.solve()
+            else:
+                # the default budget (20000, far more than the grid has cells for coarse densities), the search driven step-wise
+                run = SolverRun(prob, r=r, eps=eps, limit=20000, m=mm, tag=prob.name + "/default-budget", full_snap=False)
+                for k in compositions(rng, rng.randint(12, 40)):
+                    run.dgi(k)
             runs.append(run)
     return runs
 
